@@ -768,7 +768,69 @@ def _bool_then_some(ev, args, depth):
     raise Unknown("then_some on %r" % (b,))
 
 
+def _int_cmp(ev, args, depth):
+    a, b = deref(args[0]), deref(args[1])
+    if isinstance(a, int) and isinstance(b, int):
+        return Adt("std::cmp::Ordering", "Less" if a < b else ("Equal" if a == b else "Greater"), ())
+    raise Unknown("cmp on %r %r" % (a, b))
+
+
+def _is_pow2(ev, args, depth):
+    a = deref(args[0])
+    if isinstance(a, int):
+        return a > 0 and (a & (a - 1)) == 0
+    raise Unknown("is_power_of_two on %r" % (a,))
+
+
+def _overflowing(op, ty):
+    def f(ev, args, depth):
+        a, b = deref(args[0]), deref(args[1])
+        if not (isinstance(a, int) and isinstance(b, int)):
+            raise Unknown("overflowing_%s on %r %r" % (op, a, b))
+        r = {"add": a + b, "sub": a - b, "mul": a * b}[op]
+        bits = INT_BITS[ty]
+        return (r % (1 << bits), not in_range(r, ty))
+    return f
+
+
+def _sized_get(ev, args, depth):
+    """slice / Vec `get(i)` on a value of which only the length is known."""
+    v, i = deref(args[0]), deref(args[1])
+    if isinstance(v, dict) and "len" in v and isinstance(i, int):
+        if i < v["len"]:
+            return Adt("std::option::Option", "Some", (Ref(Adt("opaque", "elem")),))
+        return Adt("std::option::Option", "None", ())
+    if isinstance(v, SeqVal) and isinstance(i, int):
+        if i < len(v.items):
+            return Adt("std::option::Option", "Some", (Ref(v.items[i]),))
+        return Adt("std::option::Option", "None", ())
+    raise Unknown("get on %r" % (v,))
+
+
+def _ord_pred(which):
+    def f(ev, args, depth):
+        v = deref(args[0])
+        if isinstance(v, Adt) and v.ty_last() == "Ordering":
+            return {"is_lt": v.variant == "Less", "is_le": v.variant != "Greater", "is_gt": v.variant == "Greater",
+                    "is_ge": v.variant != "Less", "is_eq": v.variant == "Equal", "is_ne": v.variant != "Equal"}[which]
+        raise Unknown(which + " on %r" % (v,))
+    return f
+
+
 STD_MODELS = {
+    "std::cmp::Ord::cmp": _int_cmp,
+    "core::cmp::impls::<impl std::cmp::Ord for usize>::cmp": _int_cmp,
+    "core::cmp::impls::<impl std::cmp::Ord for u32>::cmp": _int_cmp,
+    "core::cmp::impls::<impl std::cmp::Ord for u64>::cmp": _int_cmp,
+    "core::num::<impl usize>::is_power_of_two": _is_pow2,
+    "core::num::<impl usize>::overflowing_add": _overflowing("add", "usize"),
+    "core::num::<impl usize>::overflowing_sub": _overflowing("sub", "usize"),
+    "core::num::<impl usize>::overflowing_mul": _overflowing("mul", "usize"),
+    "core::slice::<impl [T]>::get": _sized_get,
+    "core::slice::<impl [T]>::get_mut": _sized_get,
+    "std::cmp::Ordering::is_lt": _ord_pred("is_lt"), "std::cmp::Ordering::is_le": _ord_pred("is_le"),
+    "std::cmp::Ordering::is_gt": _ord_pred("is_gt"), "std::cmp::Ordering::is_ge": _ord_pred("is_ge"),
+    "std::cmp::Ordering::is_eq": _ord_pred("is_eq"), "std::cmp::Ordering::is_ne": _ord_pred("is_ne"),
     "std::ops::Fn::call": _fn_call,
     "std::ops::FnMut::call_mut": _fn_call,
     "std::ops::FnOnce::call_once": _fn_call,
